@@ -1,0 +1,81 @@
+//go:build verif
+
+package basestreamseeder
+
+// Machine-checked contracts for /verif (read as text by the VC generator; no code).
+//
+// What is decided here (C17, session table only): the reader goroutine, under the single-goroutine channel
+// abstraction, for every order of requests and unregistrations:
+//   [resumable] a session disappears from the session table only in an iteration that unregistered its peer, or that
+//               replaced its peer's session list while the peer already held three sessions (i.e. opened a new one);
+//   the table stays well-formed (every stored session has its locators, its send function and a valid sender index),
+//   and every step of the loop is free of nil dereferences, out-of-range indices and division by zero.
+// Not decided here: the order and contents of the responses (they are produced by the application's ForEachItem
+// callback through closures), the done marker, the pending-memory bound (another goroutine releases it).
+//@ ghost gSendN int
+//@ ghost gSendSession int
+//@
+//@ funcfield Callbacks.ForEachItem
+//@   params start, rType, onKey, onAppended
+//@   ensures result != nil
+//@ funcfield Peer.SendChunk
+//@   ensures true
+//@ funcfield Peer.Misbehaviour
+//@   ensures true
+//@ funcfield sessionState.sendChunk
+//@   params r
+//@   modifies gSendN, gSendSession
+//@   ghost gSendN = old(gSendN) + 1
+//@   ghost gSendSession = r.SessionID
+//@
+//@ // what NotifyRequestReceived hands to the reader: a record with both peer callbacks and both session locators set
+//@ chaninv BaseSeeder.notifyReceivedRequest(v): v != nil && v.peer.SendChunk != nil && v.peer.Misbehaviour != nil && v.request.Session.Start != nil && v.request.Session.Stop != nil
+//@
+//@ spec sok(s *BaseSeeder, st sessionState) bool = st.origSelector != nil && st.next != nil && st.stop != nil && st.sendChunk != nil && 0 <= st.senderI && st.senderI < len(s.senders)
+//@ inv BaseSeeder seedinv(s): s != nil && s.sessions != nil && s.peerSessions != nil && s.callback.ForEachItem != nil && s.cfg.SenderThreads > 0 && s.cfg.SenderThreads <= 2147483647 && len(s.senders) == s.cfg.SenderThreads &&
+//@   forall(i, 0, len(s.senders), s.senders[i] != nil) && forall(k sessionIDAndPeer, has(s.sessions, k) ==> sok(s, s.sessions[k]))
+//@
+//@ // NotifyRequestReceived: too many chunks are refused; otherwise the limits are clamped to the configured maxima and
+//@ // the record is handed to the reader (or termination is reported)
+//@ func (*BaseSeeder).NotifyRequestReceived
+//@   requires s != nil && peer.SendChunk != nil && peer.Misbehaviour != nil && r.Session.Start != nil && r.Session.Stop != nil
+//@   ensures  [refused] r.MaxChunks > s.cfg.MaxResponseChunks ==> result0 == nil && result1 == ErrTooManyChunks
+//@   ensures  [accepted] r.MaxChunks <= s.cfg.MaxResponseChunks ==> result1 == nil && (result0 == nil || result0 == errTerminated)
+//@
+//@ func (*BaseSeeder).UnregisterPeer
+//@   requires s != nil
+//@   ensures  result == nil || result == errTerminated
+//@
+//@ func (*BaseSeeder).waitPendingResponsesBelowLimit
+//@   requires s != nil
+//@   loop 1 invariant true
+//@
+//@ // the key filter handed to ForEachItem: remembers the last key below the session's stop
+//@ func (*BaseSeeder).readerLoop$1
+//@   requires key != nil
+//@   modifies lastKey
+//@   preserves lastKey != nil && session.stop != nil
+//@ // the size filter handed to ForEachItem
+//@ func (*BaseSeeder).readerLoop$2
+//@   requires items != nil
+//@   modifies allConsumed
+//@   preserves op != nil
+//@ // the sender task: one SendChunk call with the prepared response, then the pending memory is released
+//@ func (*BaseSeeder).readerLoop$3
+//@   requires s != nil && session.sendChunk != nil
+//@   modifies gSendN, gSendSession, s.pendingResponsesSize
+//@   ensures  gSendN == old(gSendN) + 1 && gSendSession == resp.SessionID
+//@
+//@ func (*BaseSeeder).readerLoop
+//@   requires seedinv(s)
+//@   interference s.done, s.pendingResponsesSize
+//@   modifies s.sessions[*], s.peerSessions[*], s.sessionsCounter, s.pendingResponsesSize, s.done, allelems(uint32)
+//@   loop 1 modifies s.sessions[*], s.peerSessions[*], s.sessionsCounter, s.pendingResponsesSize, s.done, allelems(uint32)
+//@   loop 1 invariant seedinv(s)
+//@   loop 1 hint assert [resumable] forall(k sessionIDAndPeer, iterold(has(s.sessions, k)) && !has(s.sessions, k) ==> !has(s.peerSessions, k.peer) || (s.peerSessions[k.peer] != iterold(s.peerSessions[k.peer]) && iterold(len(s.peerSessions[k.peer])) > 2))
+//@   loop 2 modifies s.sessions[*]
+//@   loop 2 invariant seedinv(s) && 0 <= _k && _k <= len(_range)
+//@   loop 2 invariant [onlypeer] forall(k sessionIDAndPeer, atentry(has(s.sessions, k)) && !has(s.sessions, k) ==> k.peer == peerID)
+//@   loop 3 modifies s.sessions[*], s.pendingResponsesSize
+//@   loop 3 invariant seedinv(s) && op != nil && sok(s, session)
+//@   loop 3 invariant [keeps] forall(k sessionIDAndPeer, atentry(has(s.sessions, k)) ==> has(s.sessions, k))
